@@ -72,6 +72,7 @@ Definition lit_ann (z : Z) : ann := mk (nbits_of z) false false (Some z) true tr
 Definition is_struct (a : ann) : bool := match astr a with Some _ => true | None => false end.
 
 Definition is_shift (op : binop) : bool := match op with LShift | RShift => true | _ => false end.
+Definition is_div (op : binop) : bool := match op with FloorDiv | Mod => true | _ => false end.
 Definition fold_limit : Z := 4096.
 Definition int_fold (op : binop) (x y : Z) : option Z :=
   match op with
@@ -99,8 +100,7 @@ Definition unify (la ra : ann) (ifexp : bool) : option (option Z * option Z) :=
 
 (* visit_BinOp *)
 Definition rule_bin (chk : nat -> bool) (op : binop) (la ra : ann) : option (ann * option Z * option Z) :=
-  if is_struct la || is_struct ra then None else
-  match op with FloorDiv | Mod => None | _ =>
+  if is_struct la || is_struct ra || is_div op then None else    (* / % : not modelled *)
   let sh := is_shift op in
   match (if sh then Some (None, None) else unify la ra false) with
   | None => None
@@ -124,7 +124,7 @@ Definition rule_bin (chk : nat -> bool) (op : binop) (la ra : ann) : option (ann
           Some ({| aw := resw; aex := ex; asig := false; acv := None; amut := false; astr := None; aint := mi;
                    aovf := mi && (match op with Add | Mul | LShift => true | _ => false end) |}, cl, cr)
       end
-  end end.
+  end.
 
 (* visit_Compare *)
 Definition rule_cmp (la ra : ann) : option (ann * option Z * option Z) :=
@@ -191,6 +191,24 @@ Definition tc_list (f : expr -> option typed) (okc : typed -> bool) : list expr 
                 end
     end.
 
+(* width of  a[lo:hi] : both bounds constant, or the  x : x+k  form (visit_Slice) *)
+Definition slice_width (chk : nat -> bool) (tcf : expr -> option typed) (wA : Z) (rl rh : ann) (lo hi : expr) : option Z :=
+  match acv rl, acv rh with
+  | Some l, Some h => if (0 <=? l) && (l <? h) && (h <=? wA) then Some (h - l) else None
+  | _, _ =>
+      match hi with
+      | EBin Add x y =>
+          if chk 12%nat && negb (match y with ELit _ | EFree _ => true | _ => false end) then None else  (* (S12) *)
+          match tcf y with
+          | Some ry => match acv (fst ry) with
+                       | Some k => if expr_eqb lo x && (0 <? k) then Some k else None
+                       | None => None end
+          | None => None
+          end
+      | _ => None
+      end
+  end.
+
 Section TC.
 Variable chk : nat -> bool.
 Variable E : tenv.
@@ -255,22 +273,7 @@ Fixpoint tc (e : expr) {struct e} : option typed :=
           match acv A with Some _ => None | None =>
           match index_ext (aw A) (fst rl) true, index_ext (aw A) (fst rh) false with
           | Some c1, Some c2 =>
-              let w :=
-                match acv (fst rl), acv (fst rh) with
-                | Some l, Some h => if (0 <=? l) && (l <? h) && (h <=? aw A) then Some (h - l) else None
-                | _, _ =>
-                    match hi with
-                    | EBin Add x y =>
-                        if chk 12%nat && negb (match y with ELit _ | EFree _ => true | _ => false end) then None else  (* (S12) *)
-                        match tc y with
-                        | Some ry => match acv (fst ry) with
-                                     | Some k => if expr_eqb lo x && (0 <? k) then Some k else None
-                                     | None => None end
-                        | None => None
-                        end
-                    | _ => None
-                    end
-                end in
+              let w := slice_width chk tc (aw A) (fst rl) (fst rh) lo hi in
               match w with
               | Some w => if enforce_ok chk c1 rl && enforce_ok chk c2 rh
                           then Some (mk w true false None false false, flat ra ++ flat (enforce c1 rl) ++ flat (enforce c2 rh))
@@ -379,7 +382,7 @@ Definition tc_assign (chk : nat -> bool) (E : tenv) (l : lhs) (e : expr) : optio
               | Some rl =>
                   let L := fst rl in
                   match astr L, astr R with
-                  | Some x, Some y => if Nat.eqb x y then Some (E, flat rl ++ flat r) else None
+                  | Some x, Some y => if Nat.eqb x y && (aw L =? aw R) then Some (E, flat rl ++ flat r) else None   (* same bitstruct *)
                   | Some _, None | None, Some _ => None          (* struct <-> vector of equal width: not modelled *)
                   | None, None =>
                       let r' := if negb (aex R) && negb (aw R =? aw L) then enforce (Some (aw L)) r else r in
